@@ -105,7 +105,8 @@ def prune_work(keep):
 
 
 def build_tools():
-    """Builds the harness commands (gencorpus, …) into .work/tools-<hash>/."""
+    """Builds the harness commands (gencorpus, …) into .work/tools-<hash>/. A command that does not
+    build is skipped here (its error is kept in <name>.err) and reported by tool_path when needed."""
     h = hash_tree(HARNESS, ["."])
     d = os.path.join(WORK, "tools-" + h)
     with Lock("tools"):
@@ -114,12 +115,24 @@ def build_tools():
             for c in sorted(os.listdir(os.path.join(HARNESS, "cmd"))):
                 p = sh(["go", "build", "-o", os.path.join(d, c), "./cmd/" + c], cwd=HARNESS, timeout=600)
                 if p.returncode != 0:
-                    raise CheckError("harness tool %s does not build:\n%s" % (c, p.stderr[-4000:]))
+                    with open(os.path.join(d, c + ".err"), "w") as f:
+                        f.write(p.stderr[-4000:])
             open(os.path.join(d, ".done"), "w").close()
             for x in os.listdir(WORK):
                 if x.startswith("tools-") and os.path.join(WORK, x) != d:
                     shutil.rmtree(os.path.join(WORK, x), ignore_errors=True)
     return d
+
+
+def tool_path(name):
+    d = build_tools()
+    p = os.path.join(d, name)
+    if not os.path.exists(p):
+        err = ""
+        if os.path.exists(p + ".err"):
+            err = open(p + ".err").read()
+        raise CheckError("harness tool %s does not build:\n%s" % (name, err))
+    return p
 
 
 # ---------------------------------------------------------------- Lean
@@ -342,7 +355,7 @@ def prepare_corpus(tier, seed, plugins, gen="gencorpus", build_tags=None):
                 return info
         shutil.rmtree(cdir, ignore_errors=True)
         os.makedirs(cdir)
-        args = [os.path.join(tools, gen), "-out", cdir, "-seed", str(seed), "-harness", HARNESS,
+        args = [tool_path(gen), "-out", cdir, "-seed", str(seed), "-harness", HARNESS,
                 "-plugins", ",".join(plugins)]
         if tier == "thorough":
             args.append("-thorough")
